@@ -118,3 +118,41 @@ Proof. reflexivity. Qed.
 Lemma sk_today_ok :
   fields_ok sk_base_sampler_today cls_sampler = true /\ fields_ok sk_ordered_samples_today cls_samples = true.
 Proof. split; vm_compute; reflexivity. Qed.
+
+(* ---- the first checkpoint after a resume carries the restored pool flag ------------------------------ *)
+Lemma prologue_after_check : forall effs cks s orig,
+  p_resumed s = false -> p_pop s = orig -> Forall (fun n => n = orig) (p_written s) ->
+  Forall (fun n => n = orig) (p_written (prologue effs cks s)) /\ p_pop (prologue effs cks s) = orig.
+Proof.
+  induction effs as [|e r IH]; intros cks s orig Hr Hp Hw; simpl; [split; assumption|].
+  destruct e.
+  - apply IH; simpl; [reflexivity|now rewrite Hr|exact Hw].
+  - destruct cks as [|[|] cks']; try (apply IH; assumption).
+    apply IH; simpl; [exact Hr|exact Hp|constructor; [exact Hp|exact Hw]].
+  - apply IH; assumption.
+Qed.
+
+Theorem prologue_sound : forall effs, prologue_ok effs = true ->
+  forall orig cks,
+    Forall (fun note => note = orig) (p_written (prologue effs cks (after_resume_pool orig))).
+Proof.
+  intros effs H orig cks.
+  assert (G : forall effs cks s, prologue_ok effs = true -> p_resumed s = true -> p_note s = orig ->
+              p_pop s = false -> p_written s = [] ->
+              Forall (fun n => n = orig) (p_written (prologue effs cks s))).
+  { induction effs0 as [|e r IH]; intros cks0 s Hok Hr Hn Hp Hw; simpl.
+    - rewrite Hw. constructor.
+    - destruct e; simpl in Hok; try discriminate.
+      + apply prologue_after_check; simpl; [reflexivity| |rewrite Hw; constructor].
+        rewrite Hr, Hn, Hp. now destruct orig.
+      + now apply IH. }
+  apply G; [exact H|reflexivity..].
+Qed.
+
+(* update_state before check_resume: the entry checkpoint records an empty pool although it is populated *)
+Lemma prologue_swapped_refuted :
+  exists cks, p_written (prologue [PSkip; PUpdateState; PCheckResume] cks (after_resume_pool true)) = [false].
+Proof. exists [true]. reflexivity. Qed.
+
+Lemma prologue_today_ok : prologue_ok prologue_today = true.
+Proof. reflexivity. Qed.
